@@ -35,8 +35,13 @@ def generate_restart(rng):
   for _ in range(rng.randrange(1, 5)):
     c0.append(['subscribe', rng.randrange(nq), rng.choice(sigs), rng.choice(['fifo', 'lifo']), 'event'])
   for _ in range(rng.randrange(4, 13)):
-    k = rng.choices(['publish', 'stop', 'start', 'sleep'], weights=[6, 2, 2, 1])[0]
-    if k == 'publish':
+    k = rng.choices(['publish', 'stop', 'start', 'sleep', 'clear'], weights=[6, 2, 2, 1, 1])[0]
+    if k == 'clear':
+      # every subscription is dropped (on a running or a stopped fabric), then some queues subscribe afresh
+      c0.append(['clear'])
+      for _ in range(rng.randrange(1, 4)):
+        c0.append(['subscribe', rng.randrange(nq), rng.choice(sigs), rng.choice(['fifo', 'lifo']), 'event'])
+    elif k == 'publish':
       c0.append(['publish', rng.choice(sigs), rng.choice([None, None, 1, 5])])
     elif k == 'sleep':
       c0.append(['sleep', 0.01])
@@ -164,7 +169,9 @@ def judge(sc, run, sim, reason, res):
     if n > ncalls:
       res.violate('delivered-twice', {'kind': kind}, 'event %s (%s), published %d time(s), was delivered %d times to q%d by the %s thread' % (uid, run.pubs[uid]['sig'], ncalls, n, qi, kind))
       return
-    asked = [s for s in run.subs if s['q'] == qi and s['sig'] == run.pubs[uid]['sig'] and s['kind'] == kind and s['begin'] < first_seq[key]]
+    # (a subscription dropped by clear() before the publication was made no longer counts)
+    asked = [s for s in run.subs if s['q'] == qi and s['sig'] == run.pubs[uid]['sig'] and s['kind'] == kind and s['begin'] < first_seq[key]
+             and (s.get('cleared_at') is None or s['cleared_at'] > run.pubs[uid]['begin'])]
     if not asked:
       res.violate('foreign-delivery', {'kind': kind},
                   'event %s (%s) was delivered to q%d by the %s thread, but that queue never subscribed to %s as %s; subscriptions: %s' % (
@@ -174,9 +181,10 @@ def judge(sc, run, sim, reason, res):
   for uid, p in sorted(run.pubs.items()):
     if p['end'] is None:
       continue
-    keys = set((s['q'], s['kind']) for s in run.subs if s['sig'] == p['sig'] and s['end'] is not None)
+    live = [s for s in run.subs if s['sig'] == p['sig'] and s['end'] is not None and not s.get('cleared')]     # never dropped by clear()
+    keys = set((s['q'], s['kind']) for s in live)
     for qi, kind in sorted(keys):
-      first_sub_end = min(s['end'] for s in run.subs if s['sig'] == p['sig'] and s['end'] is not None and s['q'] == qi and s['kind'] == kind)
+      first_sub_end = min(s['end'] for s in live if s['q'] == qi and s['kind'] == kind)
       # one delivery is owed for every publish call of this event object that began after the subscription was made
       owed = sum(1 for b, e in p['calls'] if e is not None and b > first_sub_end)
       if sc.get('stratum') == 'stop-restart' and not (p.get('running') and p.get('running_after')):
